@@ -148,8 +148,10 @@ def par_event(tid, n, out, aggregator):
 
 
 # ------------------------------------------------------------------------------ list-model replay
-def replay_history(kind, hist):
-    """Step a real model through one TLC-generated history; return list of (index, what, expected, got)."""
+def replay_history(kind, hist, shared=False):
+    """Step a real model through one TLC-generated history; return list of (index, what, expected, got).
+
+    shared: a stage id stands for one stage OBJECT (adding id 1 twice adds the same object twice) instead of a fresh object per add."""
     from kaira.models.base import ConfigurableModel
     from kaira.models.generic import ParallelModel, SequentialModel
     log = []
@@ -162,10 +164,11 @@ def replay_history(kind, hist):
     names = []
     ctr = [0]
     diffs = []
+    pool_ = {}
     for idx, h in enumerate(hist):
         op = h["op"]
         if op == "add":
-            st = Stage(h["s"], log)
+            st = pool_.setdefault(h["s"], Stage(h["s"], log)) if shared else Stage(h["s"], log)
             if kind == "Parallel":
                 ctr[0] += 1
                 m.add_step(st, "n%d" % ctr[0])
@@ -546,10 +549,15 @@ def run(run):
         hists = rng.sample(hists, 1500)
     for kind in ("Configurable", "Sequential", "Parallel"):
         bad = 0
-        for h in hists:
+        for hi_, h in enumerate(hists):
             diffs = replay_history(kind, h)
             run.case((kind, _hkey(h)), nontrivial=True)
             run.traces += 1
+            if not diffs and len({x["s"] for x in h if x["op"] == "add"}) < sum(1 for x in h if x["op"] == "add"):
+                # a stage id repeats: replay again with ONE object per id (the same step object declared twice)
+                diffs = replay_history(kind, h, shared=True)
+                run.case((kind, "shared", _hkey(h)), nontrivial=True)
+                run.traces += 1
             if diffs and bad < 1:
                 bad += 1
                 run.violate({"Configurable": "ConfigurableModel", "Sequential": "SequentialModel", "Parallel": "ParallelModel"}[kind],
